@@ -86,7 +86,28 @@ RULE = ("boundary set x boundary set of binary64 bit patterns, exhaustively (sig
         "SAME reference on both sides of every relation (x == x, x.partial_cmp(&x); every boundary value incl. NaN), "
         "l = every partial_cmp of the line evaluated on copies made by a loop pattern, t = the script on a freshly "
         "spawned thread that never called f80_init, i = f80_init called again before and in the middle of the "
-        "script, and all of them together. Every case additionally evaluates internal consistency checks whose "
+        "script, and all of them together. HISTORIES THAT END ABNORMALLY before the script, on the same thread (the "
+        "operations depend on hidden x87 state: rounding / precision control, masks, register stack; an entry point "
+        "that changes it must restore it on every exit): operands and results of the case (x, y, x+y, x*y, x/y, "
+        "x*y+x) and six fixed values (2.5, -0.1, 1/3, 123456.789, 1e17+1, -0.99999..) are formatted with Display / Debug "
+        "/ LowerExp / UpperExp (when implemented) under 22 specifications ({} {:?} {:.3} {:.18} {:10.2} {:.0} {:+.6?} "
+        "{:<12.4} {:08.3} {:.*} {:>24.17?} {:.19} {:.40?}, slices, Option under {:#?}, a derived Debug struct, four "
+        "values in one call, a user Display that returns Err after the f80) into f = a String and a sink that does f80 "
+        "arithmetic of its own inside write_str (must see the caller's state), b = a bounded fmt::Write sink and a "
+        "bounded io::Write sink that fail after 0, 1, 2, len/2, len-1 bytes, p = a sink that panics, user Display "
+        "impls that panic before / after the f80, to_string of a Display returning Err, rlib_show::Show (panics "
+        "caught), u = user closures that compare / convert / add f80 values and panic or stop early (sort_by, "
+        "sort_unstable_by, max_by, min_by, binary_search_by with a comparator that panics at its k-th call or does "
+        "partial_cmp(..).unwrap() on a NaN, folds with += *=, map with conversions, f80 operations in a Drop during "
+        "unwinding, try_fold / find / any / position / take_while), h = the script on a thread spawned after the "
+        "preamble from the thread that ran it (inherits the floating-point environment); formatted text must be the "
+        "same before and after the abnormal exits and a bounded sink must have received a prefix of it. HIDDEN STATE: "
+        "every case first runs every kind of operation once on its operands (conversions, + - * / and assigning "
+        "forms, neg, abs, six relations, partial_cmp, min, max, Display, Debug, with a precision, Show) and compares "
+        "the x87 control word (fnstcw), TOP / stack fault (fnstsw) and the MXCSR control bits before and after EACH; so "
+        "does every formatting call / closure of the preamble and every step of a straight-line program; the whole "
+        "case is bracketed including the tag word (fnstenv); a difference is the internal check "
+        "x87-state-changed-by-<operation>. Every case additionally evaluates internal consistency checks whose "
         "failure replaces the line by `X <names>` (fails both Coq checks): assigning vs by-value operators bit for "
         "bit, != is the negation of ==, the six relations through the same reference vs two objects with equal "
         "bytes (x, y, m, p, q, s, -x), ZERO / default() / ONE have the bytes of from(0.0) / from(1.0), "
@@ -98,7 +119,9 @@ RULE = ("boundary set x boundary set of binary64 bit patterns, exhaustively (sig
         "(results of neg/abs/min/max as operands of arithmetic and relations), square (x at an end of the binary64 "
         "range squared five times, scaled by y: f80 overflow to infinity, f80 denormals with exponent word 0, "
         "underflow to zero, narrowing of such values), random programs of 5-12 steps; each program also with all "
-        "arithmetic through the assigning operators (coverage counters trace_* in the evidence). Beside debug and "
+        "arithmetic through the assigning operators, and a spread subset with the abnormal-exit preamble before the "
+        "program and a failing / panicking format of the step's result (or a panicking comparator) after EVERY step "
+        "(families *-abnormal-exits; coverage counters trace_* in the evidence). Beside debug and "
         "release (both Coq-checked) the executor is built with fat LTO + one codegen unit and run in a process that "
         "never calls f80_init: both must reproduce the debug observations (thorough: on 400000 more pairs, the "
         "routes taken in turn); non-trivial = both operands finite, non-zero, different")
@@ -106,7 +129,9 @@ TRUSTED = ["executor harness/crates/c18 (calls rlib_f80 operators/methods, print
            "as (sign/exponent word, significand word), f64 results as bit patterns, the six relations of a pair of "
            "extended operands as one code lt+2le+4gt+8ge+16eq+32partial_cmp; interprets the straight-line programs; "
            "its internal consistency checks compare entry points of the crate with each other and can only turn an "
-           "observation line into an `X` line that fails both Coq checks)",
+           "observation line into an `X` line that fails both Coq checks; src/hidden.rs reads the x87 control / status "
+           "/ tag words and MXCSR with fnstcw / fnstsw / fnstenv+fldenv / stmxcsr and, AFTER a case has been reported, "
+           "puts the main thread back into its start-up state with fninit / fldcw / ldmxcsr)",
            "checks/c18.py (case generator, Coq term printer; in the extended-operand group a raw that repeats an "
            "operand raw word for word is printed as a back-reference, resolved by Corr.v's OBS/pick)",
            "x87 instructions are modelled, not verified: IEEE semantics at (prec 64, emax 16384), control word "
@@ -116,7 +141,9 @@ ASSUMPTIONS = ["operands of the arithmetic are images of binary64 values (as in 
                "the relations on extended operands and in the straight-line programs, results of up to about twenty "
                "operations on such images; NaN payloads are not modelled: NaNs are compared as a class (x87 quiets "
                "signalling NaNs on load)",
-               "Display / Debug / Show of f80 (formatting through f64::from) are not observed; build configurations "
+               "the TEXT produced by Display / Debug / Show of f80 is not specified (only: it is deterministic, a bounded "
+               "sink receives a prefix of it, and formatting - completed, failed or panicking - leaves the hidden "
+               "floating-point state and all later results unchanged); build configurations "
                "other than dev, release and release + fat LTO (opt-level s/z, i686, windows `finit`) are not built",
                "theorems are about the spec_float model; correspondence with the inline assembly is sampled"]
 
@@ -897,7 +924,13 @@ MANIFEST = {
             "c18_spec_check_sound states that an accepted observation is the model's relation on them. The same "
             "observation line is also required from the other entry points of the crate (assigning operators, the "
             "constants ZERO / ONE / default(), comparisons through one and the same reference, partial_cmp on loop "
-            "temporaries, a thread that never called f80_init, repeated f80_init), and straight-line programs of up to "
+            "temporaries, a thread that never called f80_init, repeated f80_init) and after histories that end abnormally "
+            "on the same thread (Display / Debug of f80 values under 22 format specifications into a String, into "
+            "bounded fmt::Write / io::Write sinks that fail after k bytes, into panicking sinks; panicking user Display "
+            "impls; sort_by / max_by / binary_search_by / fold / map closures over f80 values that panic or stop "
+            "early; a thread spawned afterwards), while the executor compares the hidden x87 / SSE state (control word, "
+            "stack top, tag word, MXCSR control bits) before and after every single operation, formatting call and "
+            "program step, and straight-line programs of up to "
             "about twenty steps (Coq constructor Trace, c18_spec_trace_sound: an accepted program's every step is the "
             "model's operation on the observed operand raws) carry every operator, neg, abs, min, max and the relations "
             "to arbitrary extended-format operands, f80 overflow and f80 denormals included. A release build with fat "
